@@ -321,8 +321,9 @@ class TrafficFilter:
         try:
             return self._is_external_ip(gethostbyname(host))
 
-        except socket_error as error:
+        except (socket_error, UnicodeError) as error:
             # If there is a network error, we will avoid storing this and will try again next time.
+            # (a name with an empty or over-long label fails IDNA encoding with UnicodeError before it is resolved)
             self._logger.warning(
                 f"TrafficFilter::Could not resolve: '{host}'. Error: {error}"
             )
